@@ -79,7 +79,7 @@ package interp
 // stored once an error has been reported (a failed operand leaves a zero
 // behind, which an enclosing assignment would otherwise store).
 //@ func assign
-//@   requires yylex is *lexer && yylex.(*lexer) != nil && yylex.(*lexer).env != nil
+//@   requires yylex is *lexer && yylex.(*lexer) != nil
 //@   requires !locked(yylex.(*lexer).mu)
 //@   ensures mutex-released: !locked(yylex.(*lexer).mu)
 //@   site STORE = call interp.(*ExecEnv).Set
@@ -352,6 +352,11 @@ package interp
 //@   props C11 C19
 //@   mode bv64
 //@   requires yylex is *lexer && yylex.(*lexer) != nil
+//@   requires !locked(yylex.(*lexer).mu)
+// yylex.Error is (*lexer).Error, which releases the mutex it takes (checked
+// there); the call goes through the yyLexer interface, which the engine does
+// not resolve, hence an assumption here
+//@   assumes mutex-released: !locked(yylex.(*lexer).mu)
 //@   ensures x.s == "" ==> result0 == x.n && result1
 
 //@ func calculate
@@ -359,6 +364,8 @@ package interp
 //@   mode bv64
 //@   faults div shift
 //@   requires yylex is *lexer && yylex.(*lexer) != nil
+//@   requires !locked(yylex.(*lexer).mu)
+//@   ensures mutex-released: !locked(yylex.(*lexer).mu)
 //@   ensures x.s == ""
 //@   ensures ok && l.s == "" && r.s == "" && op == "*" ==> x.n == l.n * r.n
 //@   ensures ok && l.s == "" && r.s == "" && op == "/" ==> x.n == l.n / r.n
@@ -376,6 +383,8 @@ package interp
 //@   props C11 C19
 //@   mode bv64
 //@   requires yylex is *lexer && yylex.(*lexer) != nil
+//@   requires !locked(yylex.(*lexer).mu)
+//@   ensures mutex-released: !locked(yylex.(*lexer).mu)
 //@   ensures x.s == ""
 //@   ensures l.s == "" && r.s == "" && op == "<" ==> x.n == (l.n < r.n ? 1 : 0)
 //@   ensures l.s == "" && r.s == "" && op == ">" ==> x.n == (l.n > r.n ? 1 : 0)
@@ -401,6 +410,9 @@ package interp
 //@   mode bv64
 //@   props C11 C19
 //@   requires yylex is *lexer && yylex.(*lexer) != nil
+// the parser goroutine reduces with the lexer's mutex free (only Lex and
+// Error take it, and both release it before they return)
+//@   requires !locked(yylex.(*lexer).mu)
 //@   requires yypt >= $K && yypt + 1 <= len(yyS)
 //@   requires yyVAL == $1
 
